@@ -1475,6 +1475,78 @@ static void scn_replace(void)
     CHK(ABT_xstream_free(&g_rx));
 }
 
+/* ======================================================================= racing directed yields (C02)
+ * Units in pools that several streams serve yield and yield to each other with
+ * the old ABT_thread_yield_to, whose target may be popped by another stream's
+ * scheduler between the "is it in its pool?" test and its removal; the call then
+ * reports an error or does nothing -- it must never switch to a unit that is
+ * running elsewhere.  Every unit flags the run slices it is in: two overlapping
+ * slices of one unit are reported as Overlap. */
+typedef struct {
+    int id, rounds;
+    ABT_thread th;
+    volatile int active, done;
+} yt_t;
+static yt_t YT[6];
+static int g_nyt;
+static void yt_enter(yt_t *me)
+{
+    if (__sync_lock_test_and_set(&me->active, 1))
+        EV("\"e\":\"Overlap\",\"u\":%d", me->id);
+}
+static void yt_body(void *arg)
+{
+    yt_t *me = (yt_t *)arg;
+    int rank = -1;
+    ABT_xstream_self_rank(&rank);
+    EV("\"e\":\"Start\",\"u\":%d,\"arg\":%d,\"es\":%d,\"n\":1", me->id, me->id * 10, rank);
+    yt_enter(me);
+    for (int r = 0; r < me->rounds; r++) {
+        int o = 1 + rnd(g_nyt);
+        abtv_point();
+        if (o != me->id && !YT[o].done && YT[o].th != ABT_THREAD_NULL && rnd(3)) {
+            EV("\"e\":\"YieldTo\",\"u\":%d", me->id);
+            __sync_lock_release(&me->active);
+            int ret = ABT_thread_yield_to(YT[o].th);
+            yt_enter(me);
+            EV("\"e\":\"Back\",\"u\":%d", me->id);
+            if (ret != ABT_SUCCESS && ret != ABT_ERR_POOL)
+                CHK(ret);
+        } else {
+            EV("\"e\":\"Yield\",\"u\":%d", me->id);
+            __sync_lock_release(&me->active);
+            CHK(ABT_thread_yield());
+            yt_enter(me);
+            EV("\"e\":\"Back\",\"u\":%d", me->id);
+        }
+    }
+    me->done = 1;
+    __sync_lock_release(&me->active);
+    EV("\"e\":\"Finish\",\"u\":%d", me->id);
+}
+static void scn_ytrace(void)
+{
+    memset(YT, 0, sizeof YT);
+    g_nyt = 2 + rnd(4);
+    EV("\"e\":\"Exec\",\"nu\":%d,\"nes\":%d,\"cfg\":%d,\"ext\":0", g_nyt, g_nes, g_cfg);
+    for (int i = 1; i <= g_nyt; i++) {
+        yt_t *u = &YT[i];
+        u->id = i;
+        u->rounds = 3 + rnd(10);
+        u->th = ABT_THREAD_NULL;
+    }
+    for (int i = 1; i <= g_nyt; i++) {
+        EV("\"e\":\"Create\",\"by\":0,\"u\":%d,\"kind\":0,\"named\":1,\"arg\":%d,\"pool\":1", i, i * 10);
+        CHK(ABT_thread_create(g_pool[1 + rnd(g_nes - 1)][0], yt_body, &YT[i], ABT_THREAD_ATTR_NULL, &YT[i].th));
+        EV("\"e\":\"CreateRet\",\"by\":0,\"u\":%d", i);
+    }
+    for (int i = 1; i <= g_nyt; i++) {
+        EV("\"e\":\"FreeCall\",\"by\":0,\"u\":%d", i);
+        CHK(ABT_thread_free(&YT[i].th));
+        EV("\"e\":\"FreeRet\",\"by\":0,\"u\":%d,\"null\":%d,\"tok\":%d", i, YT[i].th == ABT_THREAD_NULL, i * 10);
+    }
+}
+
 /* ======================================================================= cancel before the first run (C12, C03)
  * A named ULT is created (or revived) into a pool that no scheduler serves,
  * so it has never been scheduled; a joiner blocks on it; it is cancelled and
@@ -1877,9 +1949,11 @@ static void scenario(const char *name, uint64_t seed)
     }
     setup_streams();
     if (!strcmp(name, "migrate") || !strcmp(name, "migrace") || !strcmp(name, "switch") || !strcmp(name, "xjoin") ||
-        !strcmp(name, "cancelnew") || !strcmp(name, "cancelmix") || !strcmp(name, "ryt") || !strcmp(name, "replace")) {
+        !strcmp(name, "cancelnew") || !strcmp(name, "cancelmix") || !strcmp(name, "ryt") || !strcmp(name, "replace") || !strcmp(name, "ytrace")) {
         if (!strcmp(name, "migrace"))
             scn_migrace();
+        else if (!strcmp(name, "ytrace"))
+            scn_ytrace();
         else if (!strcmp(name, "replace"))
             scn_replace();
         else if (!strcmp(name, "ryt"))
